@@ -233,6 +233,42 @@ def descfx_cases():
     return F
 
 
+# declared Snowflake types: (spelling, model kind, p, s).  description after `select col` of a CREATE TABLE column, of a column added with
+# ALTER TABLE ADD COLUMN, and of a cast must report the DECLARED type code / precision / scale (Fs.Descr.declaredCore), and so must describe().
+def declared_cases(chk):
+    rnd = random.Random(chk.seed + 23)
+    D = []
+
+    def add(spelling, kind, p=None, s_=None):
+        D.append({"kind": "declared", "spelling": spelling, "dkind": kind, "p": p, "s": s_})
+
+    ps = list(range(1, 39)) if chk.tier != "quick" else sorted({1, 2, 9, 10, 18, 19, 37, 38} | set(rnd.sample(range(1, 39), 6)))
+    for p in ps:
+        add(rnd.choice(["number", "decimal", "numeric"]) + f"({p})", "number", p, None)
+    for p, sc in [(10, 0), (10, 2), (38, 0), (38, 37), (3, 3), (1, 0), (20, 5)] + [(p, rnd.randint(0, p)) for p in rnd.sample(range(1, 39), 4)]:
+        add(f"number({p},{sc})", "number", p, sc)
+    for sp in ("number", "decimal", "numeric"):
+        add(sp, "number")
+    for sp in ("int", "integer", "bigint", "smallint", "tinyint", "byteint"):
+        add(sp, "int")
+    for sp in ("float", "float4", "float8", "double", "double precision", "real"):
+        add(sp, "float")
+    for sp in ("varchar", "varchar(10)", "char", "char(3)", "character(4)", "string", "text"):
+        add(sp, "text")
+    for sp, k in (("boolean", "boolean"), ("date", "date"), ("binary", "binary"), ("varbinary", "binary"), ("variant", "variant"), ("object", "variant"), ("array", "variant")):
+        add(sp, k)
+    for p in (None, 0, 3, 6, 9):
+        suf = "" if p is None else f"({p})"
+        add("time" + suf, "time")
+        add("timestamp_ntz" + suf, "tsNtz")
+        add("timestamp_tz" + suf, "tsTz")
+        add("timestamp" + suf, "tsPlain", p)
+        add("datetime" + suf, "tsPlain", p)
+    for p in (1, 2, 4, 5, 7, 8):
+        add(f"timestamp_ntz({p})", "tsNtz")
+    return D
+
+
 FINDING_OF_KIND = {"seededQuery": "C06/describe-seeded-query", "rawCommand": "C06/describe-raw-command", "beforeExecute": "C06/describe-before-execute"}
 
 # ------------------------------------------------------------------------------------------------
@@ -570,6 +606,35 @@ def _real_script(case):
     return res
 
 
+def _real_declared(conn, case):
+    t = case["spelling"]
+    out = {}
+    for how, stmts, q in [("column", [f"create or replace table dt (c {t}, k int)"], "select c from dt"),
+                          ("added-column", ["create or replace table dt2 (k int)", f"alter table dt2 add column c {t}"], "select k, c from dt2"),
+                          ("cast", [], f"select cast(null as {t}) as c"), ("colon-cast", [], f"select null::{t} as c")]:
+        cur = conn.cursor()
+        try:
+            for st in stmts:
+                cur.execute(st)
+            cur.execute(q)
+        except Exception as e:
+            out[how] = {"rejected": f"{type(e).__name__}: {str(e)[:80]}"}
+            continue
+        r = {}
+        try:
+            d = cur.description[-1]
+            r["description"] = [d.type_code, d.precision, d.scale]
+        except Exception as e:
+            r["description"] = f"raises {type(e).__name__}"
+        try:
+            d = conn.cursor().describe(q)[-1]
+            r["describe"] = [d.type_code, d.precision, d.scale]
+        except Exception as e:
+            r["describe"] = f"raises {type(e).__name__}"
+        out[how] = r
+    return out
+
+
 def _real_seedpure(case):
     import fakesnow
     import snowflake.connector
@@ -606,7 +671,7 @@ def _worker_raw(shard):
     out = {}
     for style in ("pyformat", "qmark"):
         types = [(i, c) for i, c in enumerate(shard) if c["kind"] == "type" and c.get("paramstyle", "pyformat") == style]
-        if not types:
+        if not types and not (style == "pyformat" and any(c["kind"] == "declared" for c in shard)):
             continue
         old = snowflake.connector.paramstyle
         snowflake.connector.paramstyle = style
@@ -616,6 +681,10 @@ def _worker_raw(shard):
                 _fixture(conn)
                 for i, c in types:
                     out[i] = _real_type(conn, c)
+                if style == "pyformat":
+                    for i, c in enumerate(shard):
+                        if c["kind"] == "declared":
+                            out[i] = _real_declared(conn, c)
         finally:
             snowflake.connector.paramstyle = old
     for i, c in enumerate(shard):
@@ -827,6 +896,29 @@ def _check_script(chk, case, real, drv):
             return
 
 
+def _check_declared(chk, case, real, drv):
+    chk.case(("declared", case["spelling"]), nontrivial=True)
+    chk.count(f"declared:{case['dkind']}")
+    o = lambda v: "-" if v is None else str(v)
+    m = drv.ask("descr", "decl", case["dkind"], o(case["p"]), o(case["s"]))
+    spec = [None if x == "-" else int(x) for x in m["spec"].split("|")]
+    impl = "raises" if m["impl"] == "raise" else [None if x == "-" else int(x) for x in m["impl"].split("|")]
+    for how, r in real.items():
+        if "rejected" in r:
+            chk.count("declared:statement-rejected")
+            continue
+        for what in ("description", "describe"):
+            got = "raises" if isinstance(r[what], str) else r[what]
+            if got == spec:
+                continue
+            text = (f"declared type `{case['spelling']}` ({how}): {what} reports (type_code, precision, scale) = {r[what]} but the declared type demands {spec}")
+            if m["finding"] != "-" and got == impl:
+                chk.finding(m["finding"], text, case)
+            else:
+                chk.violation(text, case, broken="C06_declared_partial (correspondence with Fs.Descr.toDuck / describedCore)")
+            return
+
+
 def _check_descfx(chk, case, real, drv):
     chk.case(("descfx", case["name"]), nontrivial=True)
     chk.count(f"describe():{case['mkind']}")
@@ -851,7 +943,7 @@ def _corpus():
     return [json.loads(f.read_text())["case"] for f in sorted(d.glob("*.json"))] if d.is_dir() else []
 
 
-CHECKS = {"type": _check_type, "stmt": _check_stmt, "reexec": _check_reexec, "seedpure": _check_seedpure, "mutparams": _check_mutparams, "descfx": _check_descfx, "script": _check_script}
+CHECKS = {"type": _check_type, "stmt": _check_stmt, "reexec": _check_reexec, "seedpure": _check_seedpure, "mutparams": _check_mutparams, "descfx": _check_descfx, "script": _check_script, "declared": _check_declared}
 
 
 def _dispatch(chk, c, r, drv):
@@ -863,7 +955,7 @@ def _dispatch(chk, c, r, drv):
 
 
 def run(chk) -> None:
-    cases = _corpus() + type_queries(chk) + kind_cases() + reexec_cases() + seedpure_cases() + mutparams_cases() + descfx_cases() + script_cases()
+    cases = _corpus() + type_queries(chk) + kind_cases() + reexec_cases() + seedpure_cases() + mutparams_cases() + descfx_cases() + script_cases() + declared_cases(chk)
     chk.rule = ("A: every declared column type, every DECIMAL(p,s) 1<=p<=38 (quick: boundary + 120 sampled; thorough: all 741), 42 expression forms, 21 aggregate/arithmetic "
                 "forms, 6 bound-parameter forms: description vs types.py model on DuckDB's DESCRIBE types, describe(sql), DictCursor keys, width, Python types; "
                 "B: 56 statement kinds (incl. ALTER TABLE/VIEW/SESSION forms) x 3 read points with a twin that never reads description; C: purity snapshots; "
